@@ -191,6 +191,9 @@ func (g *progGen) node(d int) string {
 			"{% for c in nums %}{% cycle \"a\" \"b\" as cyc %}{{ cyc }}{% endfor %}",
 			"{% cycle \"x\" \"y\" \"z\" as cy2 silent %}{% for c in nums %}{% cycle cy2 %}[{{ cy2 }}]{% endfor %}",
 			"{% for c in nums %}{% cycle s1 s2 as cy3 silent %}{% endfor %}{{ cy3 }}",
+			"{% cycle s1 s2 as cy4 %}{% for c in nums %}{% cycle cy4 %}|{% endfor %}{{ cy4 }}",
+			"{% for c in lst %}{% cycle c s2 lst.0 as cy5 %}{% cycle cy5 %}{% endfor %}",
+			"{% cycle m.k st.Name as cy6 %}{% cycle cy6 %}{% cycle cy6 %}",
 			"{% for c in lst %}{% for d in nums %}{% cycle \"1\" \"2\" %}{% endfor %}{% cycle c \"-\" %}{% endfor %}",
 		})
 	case 24:
